@@ -6,9 +6,9 @@
    primitive binary64 floats, is compared bit for bit with nelder_mead_1d on every run (result and the whole sequence of
    evaluated points).  Gen/AutoCalc.v (regenerated from src/ on every run) says how optimum_poling_period and
    CrystalSetup::optimum_theta drive it (seeds, bounds, iteration limit, tolerance, early exit, final test, sign). *)
-From Coq Require Import Reals List Bool.
+From Coq Require Import Reals List Bool Floats.
 From SpdVerif Require Import Base.Rx Base.Vec3 Gen.Idler Gen.AutoCalc Model.Idler Model.NM1d Model.AutoCalc
-  Proofs.C03_base Proofs.C03_idler Proofs.C04_nm Proofs.C04_poling Proofs.C04_collinear Proofs.C04_all.
+  Proofs.C03_base Proofs.C03_idler Proofs.C04_nm Proofs.C04_poling Proofs.C04_collinear Proofs.C04_all Proofs.C04_conv Proofs.C04_conv_poling Proofs.C04_sim Proofs.C04_float Proofs.C04_mono.
 Local Open Scope R_scope.
 
 (* a strict weak order on the finite costs (binary64 without NaN, Q and R are) *)
@@ -106,6 +106,166 @@ Theorem C04_theta_residual_partial : forall cost_theta o sd L c, 0 < L ->
   cost_theta (optimum_theta cost_theta o sd) * L / 2 < 1e-3.
 Proof. exact theta_residual_partial. Qed.
 
+(* ------------------------------------------------------------------------------------------------------------------------
+   CONVERGENCE of the two-vertex simplex in exact arithmetic on V-shaped costs: cost = |h| inside [lo, hi], +infinity outside,
+   h strictly increasing on [lo, hi] with a root r there (|h| = |-h| covers the decreasing case).
+   `steps` iterates the model's `step` (no termination test), `width` = |worst - best|, `doublings` = the step accepts the expansion. *)
+
+(* the first step that is not a doubling step puts the root within twice the width of the best vertex, without growing the width *)
+Theorem C04_conv_bracket_established : forall lo hi r h, lo <= r <= hi -> h r = 0 ->
+  (forall x y, lo <= x -> x < y -> y <= hi -> h x < h y) ->
+  forall s, stI lo hi h s -> ~ doublings lo hi h s ->
+  B2s lo hi r h (step Rltb real_ops (vcost lo hi h) s) /\
+  width (step Rltb real_ops (vcost lo hi h) s) <= width s /\
+  Rabs (r - bs (step Rltb real_ops (vcost lo hi h) s)) <= 2 * width (step Rltb real_ops (vcost lo hi h) s).
+Proof. exact u_bracket_established. Qed.
+
+(* inside the bracket: it is kept, the width never grows, and after 2 m steps it is at most width / 2^m
+   (a plain reflection is always followed by a contraction): error <= 2 width / 2^m — a factor 1/sqrt 2 per iteration *)
+Theorem C04_conv_bracket_rate : forall lo hi r h, lo <= r <= hi -> h r = 0 ->
+  (forall x y, lo <= x -> x < y -> y <= hi -> h x < h y) ->
+  forall m s, stI lo hi h s -> B2s lo hi r h s ->
+  B2s lo hi r h (steps lo hi h (2 * m) s) /\ width (steps lo hi h (2 * m) s) <= width s / 2 ^ m /\
+  Rabs (r - bs (steps lo hi h (2 * m) s)) <= 2 * width s / 2 ^ m.
+Proof. exact u_bracket_rate. Qed.
+
+(* the approach phase is short: J + 1 doubling steps at the start need 2^J width0 < |r - best0| *)
+Theorem C04_conv_doubling_count : forall lo hi r h, lo <= r <= hi -> h r = 0 ->
+  (forall x y, lo <= x -> x < y -> y <= hi -> h x < h y) ->
+  forall J s, stI lo hi h s -> (forall j, (j <= J)%nat -> doublings lo hi h (steps lo hi h j s)) ->
+  2 ^ J * width s < Rabs (r - bs s).
+Proof. exact u_doubling_count. Qed.
+
+(* from the seeds, for the executor: unless the termination test fires before iteration J + 1 + 2 m, the returned point is
+   within 2 * 2^J |g1 - g0| / 2^m of the root *)
+Theorem C04_nm_run_converges : forall lo hi r h, lo <= r <= hi -> h r = 0 ->
+  (forall x y, lo <= x -> x < y -> y <= hi -> h x < h y) ->
+  forall sd g0 g1 n J m, g0 <> g1 -> (lo <= g0 <= hi \/ lo <= g1 <= hi) ->
+  let s := init Rltb (vcost lo hi h) g0 g1 in
+  (forall j, (j < J)%nat -> doublings lo hi h (steps lo hi h j s)) -> ~ doublings lo hi h (steps lo hi h J s) ->
+  (J + 1 + 2 * m <= n)%nat ->
+  (exists k, (k < J + 1 + 2 * m)%nat /\ terminated sd (steps lo hi h k s) = true) \/
+  Rabs (r - nm_result Rltb real_ops (vcost lo hi h) sd g0 g1 n) <= 2 * (2 ^ J * Rabs (g1 - g0)) / 2 ^ m.
+Proof. exact nm_run_converges. Qed.
+
+(* what an early stop of the standard-deviation test (exact form (ca - cb)^2 / 2 < tol^2) implies: with a lower slope m of h
+   and both vertices on the same side of the root, (m width)^2 < 2 tol^2.  (Vertices straddling the root with nearly equal
+   costs stop the search without any bound: that is the exception to the residual contract.) *)
+Theorem C04_sd_stop_same_side : forall lo hi r h, lo <= r <= hi -> h r = 0 ->
+  forall tol m s, 0 < m -> (forall x y, lo <= x -> x <= y -> y <= hi -> m * (y - x) <= h y - h x) ->
+  stI lo hi h s -> terminated (sd_real tol) s = true -> 0 <= (bs s - r) * (ws s - r) ->
+  (m * width s) * (m * width s) < 2 * tol * tol.
+Proof. exact u_sd_stop_same_side. Qed.
+
+(* with an upper slope M of h the cost of the best vertex is bounded inside the bracket: the residual contract *)
+Theorem C04_conv_bracket_cost : forall lo hi r h M s, (forall x, lo <= x <= hi -> Rabs (h x) <= M * Rabs (x - r)) -> 0 <= M ->
+  stI lo hi h s -> B2s lo hi r h s -> exists v, vc (s0 s) = CFin v /\ v <= M * (2 * width s).
+Proof. exact u_bracket_cost. Qed.
+
+(* optimum_poling_period (exact simplex operations): if dkz(period) — optimum idler recomputed per period — is strictly
+   monotone on [MIN_POSITIVE, L] with a root r there, the returned simplex point is within 2 * 2^J * 1e-6 / 2^m of r
+   unless the termination test fires before iteration J + 1 + 2 m <= 1000 *)
+Theorem C04_poling_search_converges : forall dkz sd L r h,
+  (forall x, Rabs (h x) = Rabs (dkz_on dkz x (sign_from (z0 dkz)))) -> opp_min_period <= r <= L -> h r = 0 ->
+  (forall x y, opp_min_period <= x -> x < y -> y <= L -> h x < h y) ->
+  forall J m, let g := opp_seed0 (opp_guess (z0 dkz)) in
+  opp_min_period <= g <= L \/ opp_min_period <= g + 1e-6 <= L ->
+  let s := init Rltb (vcost opp_min_period L h) g (g + 1e-6) in
+  (forall j, (j < J)%nat -> doublings opp_min_period L h (steps opp_min_period L h j s)) ->
+  ~ doublings opp_min_period L h (steps opp_min_period L h J s) -> (J + 1 + 2 * m <= opp_max_iter)%nat ->
+  (exists k, (k < J + 1 + 2 * m)%nat /\ terminated sd (steps opp_min_period L h k s) = true) \/
+  Rabs (r - nm_period dkz real_ops sd L) <= 2 * (2 ^ J * 1e-6) / 2 ^ m.
+Proof. exact poling_search_converges. Qed.
+
+Example C04_conv_nonvacuous :
+  let h := fun x : R => x in
+  (-10 <= 0 <= 10 /\ h 0 = 0 /\ (forall x y, -10 <= x -> x < y -> y <= 10 -> h x < h y)) /\
+  (1 : R) <> 2 /\ (-10 <= 1 <= 10 \/ -10 <= 2 <= 10) /\
+  ~ doublings (-10) 10 h (steps (-10) 10 h 0 (init Rltb (vcost (-10) 10 h) 1 2)).
+Proof. exact conv_nonvacuous. Qed.
+
+(* ------------------------------------------------------------------------------------------------------------------------
+   REFINEMENT between instances of the model. *)
+
+(* generic: corresponding seeds, and candidate points / costs / orders / termination tests corresponding along the first run
+   => corresponding results and evaluation traces *)
+Theorem C04_nm_simulation : forall (P1 K1 P2 K2 : Type) (klt1 : K1 -> K1 -> bool) (klt2 : K2 -> K2 -> bool)
+  (o1 : @ops P1) (o2 : @ops P2) (f1 : P1 -> @ecost K1) (f2 : P2 -> @ecost K2) sd1 sd2 (phi : P1 -> P2) (psi : K1 -> K2)
+  (okc : @ecost K1 -> Prop),
+  (forall a b, okc a -> okc b -> elt klt1 a b = elt klt2 (psie psi a) (psie psi b)) ->
+  (forall a b, okc a -> okc b -> sd1 a b = sd2 (psie psi a) (psie psi b)) ->
+  forall g0 g1 n, pt_ok f1 f2 phi psi okc g0 (phi g0) -> pt_ok f1 f2 phi psi okc g1 (phi g1) ->
+  run_ok klt1 o1 o2 f1 f2 sd1 phi psi okc n (init klt1 f1 g0 g1) ->
+  nm_result klt2 o2 f2 sd2 (phi g0) (phi g1) n = phi (nm_result klt1 o1 f1 sd1 g0 g1 n) /\
+  strace (nm_run klt2 o2 f2 sd2 (phi g0) (phi g1) n) = map phi (strace (nm_run klt1 o1 f1 sd1 g0 g1 n)).
+Proof. exact @nm_simulation. Qed.
+
+(* the primitive-binary64 instance (validated bit for bit against nelder_mead_1d each run) and the exact real instance
+   (the one of the convergence / wrapper theorems) compute the same run wherever every binary64 operation is exact *)
+Theorem C04_float_refines_real : forall (g : PrimFloat.float -> PrimFloat.float) (lo hi : PrimFloat.float) (G : R -> @ecost R) g0 g1 n,
+  let f := bounded lo hi g in
+  pt_ok f G fR fR okf g0 (fR g0) -> pt_ok f G fR fR okf g1 (fR g1) ->
+  run_ok PrimFloat.ltb float_ops real_ops f G (sd_small_float 0%float) fR fR okf n (init PrimFloat.ltb f g0 g1) ->
+  nm_result Rltb real_ops G (sd_real 0) (fR g0) (fR g1) n = fR (fst (nm_float g g0 g1 n lo hi 0%float)) /\
+  strace (nm_run Rltb real_ops G (sd_real 0) (fR g0) (fR g1) n)
+    = map fR (strace (nm_run PrimFloat.ltb float_ops f (sd_small_float 0%float) g0 g1 n)).
+Proof. exact float_refines_real. Qed.
+
+(* an exact binary64 addition / subtraction / multiplication: the real result is representable *)
+Theorem C04_float_ops_exact : forall x y, ffinite x = true -> ffinite y = true ->
+  (representable (fR x + fR y) -> fR (x + y)%float = fR x + fR y /\ ffinite (x + y)%float = true) /\
+  (representable (fR x - fR y) -> fR (x - y)%float = fR x - fR y /\ ffinite (x - y)%float = true) /\
+  (representable (fR x * fR y) -> fR (x * y)%float = fR x * fR y /\ ffinite (x * y)%float = true).
+Proof. exact (fun x y Hx Hy => conj (fadd_exact x y Hx Hy) (conj (fsub_exact x y Hx Hy) (fmul_exact x y Hx Hy))). Qed.
+
+Example C04_float_refinement_nonvacuous :
+  let g := fun _ : PrimFloat.float => 1%float in
+  let G := fun _ : R => @CFin R 1 in
+  let f := bounded (-16)%float 16%float g in
+  pt_ok f G fR fR okf 1%float (fR 1%float) /\ pt_ok f G fR fR okf 2%float (fR 2%float) /\
+  run_ok PrimFloat.ltb float_ops real_ops f G (sd_small_float 0%float) fR fR okf 1 (init PrimFloat.ltb f 1%float 2%float).
+Proof. exact float_refinement_nonvacuous. Qed.
+
+(* ------------------------------------------------------------------------------------------------------------------------
+   The monotonicity hypothesis, ESTABLISHED for a non-collinear signal when the idler's index does not depend on its direction
+   (ordinary idler in a uniaxial crystal): closed form of the closure's mismatch with the optimum idler recomputed per poling,
+   dkz(pp) = K phi(w(pp)), phi(t) = t (1 - kap / sqrt(t^2 + u^2)), and strict monotonicity in the period for either sign —
+   on every bracket whose smallest longitudinal closing component t1 > 0 satisfies kap u^2 < (t1^2 + u^2)^(3/2). *)
+Theorem C04_dkz_closed_form : forall index pm spol ppol phis ths ls lp ws wp nio,
+  0 < lp -> lp < ls -> 0 <= ths < PI / 2 -> (forall l d, index l d (idler_polarization pm) = nio l) ->
+  forall pp, pp_defined pp -> 0 < w_z index spol ppol phis ths ls lp ws wp pp ->
+  dkz_of index pm false (beam_new spol phis ths ls ws) (pump_new ppol lp wp) pp =
+  Kq ls * phi_mis (kappa spol ppol phis ths ls lp ws wp nio / Kq ls) (u_t index spol phis ths ls ws) (w_z index spol ppol phis ths ls lp ws wp pp).
+Proof. exact dkz_closed. Qed.
+
+Theorem C04_phi_increasing : forall kap u t1 t2, 0 <= kap -> 0 < t1 -> t1 < t2 ->
+  kap * u ^ 2 < R_sqrt.sqrt (t1 ^ 2 + u ^ 2) ^ 3 -> phi_mis kap u t1 < phi_mis kap u t2.
+Proof. exact phi_mis_increasing. Qed.
+
+Theorem C04_dkz_monotone_positive : forall index pm spol ppol phis ths ls lp ws wp nio,
+  0 < lp -> lp < ls -> 0 <= ths < PI / 2 -> (forall l d, index l d (idler_polarization pm) = nio l) ->
+  forall p1 p2, 0 < p1 -> p1 < p2 -> 0 <= kappa spol ppol phis ths ls lp ws wp nio ->
+  0 < w_z index spol ppol phis ths ls lp ws wp (PPOn p1 true) ->
+  kappa spol ppol phis ths ls lp ws wp nio / Kq ls * u_t index spol phis ths ls ws ^ 2 <
+    R_sqrt.sqrt (w_z index spol ppol phis ths ls lp ws wp (PPOn p1 true) ^ 2 + u_t index spol phis ths ls ws ^ 2) ^ 3 ->
+  dkz_of index pm false (beam_new spol phis ths ls ws) (pump_new ppol lp wp) (PPOn p1 true) <
+  dkz_of index pm false (beam_new spol phis ths ls ws) (pump_new ppol lp wp) (PPOn p2 true).
+Proof. exact dkz_monotone_positive. Qed.
+
+Theorem C04_dkz_monotone_negative : forall index pm spol ppol phis ths ls lp ws wp nio,
+  0 < lp -> lp < ls -> 0 <= ths < PI / 2 -> (forall l d, index l d (idler_polarization pm) = nio l) ->
+  forall p1 p2, 0 < p1 -> p1 < p2 -> 0 <= kappa spol ppol phis ths ls lp ws wp nio ->
+  0 < w_z index spol ppol phis ths ls lp ws wp (PPOn p2 false) ->
+  kappa spol ppol phis ths ls lp ws wp nio / Kq ls * u_t index spol phis ths ls ws ^ 2 <
+    R_sqrt.sqrt (w_z index spol ppol phis ths ls lp ws wp (PPOn p2 false) ^ 2 + u_t index spol phis ths ls ws ^ 2) ^ 3 ->
+  dkz_of index pm false (beam_new spol phis ths ls ws) (pump_new ppol lp wp) (PPOn p2 false) <
+  dkz_of index pm false (beam_new spol phis ths ls ws) (pump_new ppol lp wp) (PPOn p1 false).
+Proof. exact dkz_monotone_negative. Qed.
+
+(* the hypotheses are satisfiable: kap = 1, u = 1/10, t1 = 1 *)
+Example C04_mono_nonvacuous : (0 : R) <= 1 /\ (0 : R) < 1 /\ 1 * (1 / 10) ^ 2 < R_sqrt.sqrt (1 ^ 2 + (1 / 10) ^ 2) ^ 3.
+Proof. exact mono_nonvacuous. Qed.
+
 (* non-vacuity *)
 Example C04_nonvacuous_order : strict_weak_order Rltb.
 Proof. exact (conj Rltb_irrefl (conj Rltb_trans Rltb_cotrans)). Qed.
@@ -130,3 +290,17 @@ Print Assumptions C04_collinear_root.
 Print Assumptions C04_residual_partial.
 Print Assumptions C04_theta_range.
 Print Assumptions C04_theta_residual_partial.
+Print Assumptions C04_conv_bracket_established.
+Print Assumptions C04_conv_bracket_rate.
+Print Assumptions C04_conv_doubling_count.
+Print Assumptions C04_nm_run_converges.
+Print Assumptions C04_sd_stop_same_side.
+Print Assumptions C04_conv_bracket_cost.
+Print Assumptions C04_poling_search_converges.
+Print Assumptions C04_nm_simulation.
+Print Assumptions C04_float_refines_real.
+Print Assumptions C04_float_ops_exact.
+Print Assumptions C04_dkz_closed_form.
+Print Assumptions C04_phi_increasing.
+Print Assumptions C04_dkz_monotone_positive.
+Print Assumptions C04_dkz_monotone_negative.
